@@ -5,7 +5,8 @@ skeletons, guards and `isFull` T1 extracts from ThreadPool.cc.  Correspondence (
 under harness/sched/detsched.h (workers T1..Tn, callers behind them, the unlocked read of running_ at the
 named point ThreadPool::runInThread:beforeRunningTest), the Lean system under the same scheduler rules;
 an independent oracle judges the implementation's own trace (execution counts and order, computed queue
-length, the scheduler's all-blocked report)."""
+length, the monitor snapshots printed at every release of the pool's mutex, the scheduler's all-blocked report).
+Tasks can depend on one another through a gate (`waits` / `opens` ids, caller operation `open`)."""
 from .. import monitor_common as mc
 sched = mc.random_schedule
 
@@ -28,10 +29,27 @@ def gen_case(rng, nsched):
         threads[t].insert(rng.randint(0, len(threads[t])), "stop")
     elif mode < 0.9:
         threads.append(["stop"])           # a thread of its own: stop() races with everything
+    # dependent tasks (a quarter of the pools that have threads): some tasks wait inside task() for the gate, later
+    # ones - or a caller - open it; such a program may dead-lock by itself (every worker inside a waiting task),
+    # which the oracle tells from a task left queued while a worker is idle
+    waits, opens = [], []
+    if nthreads > 0 and v >= 2 and rng.random() < 0.25:
+        ids = list(range(1, v + 1))
+        waits = sorted(rng.sample(ids, rng.randint(1, min(2, v - 1))))
+        rest = [i for i in ids if i not in waits]
+        r = rng.random()
+        if r < 0.6:
+            opens = [rng.choice([i for i in rest if i > waits[0]] or rest)]
+        if r >= 0.4:
+            if rng.random() < 0.5:
+                threads.append(["open"])
+            else:
+                t = rng.randrange(len(threads))
+                threads[t].insert(rng.randint(0, len(threads[t])), "open")
     scheds = [[]] if rng.random() < 0.2 else []
     while len(scheds) < nsched:
         scheds.append(sched(rng, rng.randint(1, 60), rng.random() < 0.5))
-    return mc.MCase("pool %d %d" % (nthreads, maxq), threads, scheds, spurious=rng.random() < 0.35)
+    return mc.MCase("pool %d %d" % (nthreads, maxq), threads, scheds, spurious=rng.random() < 0.35, waits=waits, opens=opens)
 
 
 SMALL = [
@@ -62,32 +80,72 @@ SMALL_BP = [
 ]
 
 
+# stop() against everything it has to release at once, and tasks that depend on later tasks (entries carry a fifth
+# element: the ids of the tasks that wait for the gate / that open it).
+#  - a worker held inside a task, a full queue, producers asleep in run() on notFull_, then stop() (and only then the
+#    gate is opened): every run() must come back without having queued anything more;
+#  - two (three) idle workers and a burst of run() calls whose first task waits for a later one: a free worker has to
+#    take the later task up, whatever the notify policy - with every wake-up delivered nobody stays asleep beside a
+#    queued task.
+# The first two are explored in the quick tier as well (the first one without preemptions there: QUICK_DEP); when an
+# obligation or tie broke all of them are explored before everything else.
+SMALL_DEP = [
+    ("pool 1 1", [["run 1", "run 2", "run 3"], ["stop"], ["open"]], False, 1, {"waits": [1]}),
+    ("pool 2 0", [["run 1", "run 2"]], False, 1, {"waits": [1], "opens": [2]}),
+    ("pool 1 1", [["run 1", "run 2"], ["run 3"], ["stop", "open"]], False, 1, {"waits": [1]}),
+    ("pool 2 2", [["run 1", "run 2", "run 3"]], False, 1, {"waits": [1], "opens": [3]}),
+    ("pool 3 0", [["run 1", "run 2", "run 3"]], False, 1, {"waits": [1, 2], "opens": [3]}),
+    ("pool 2 0", [["run 1", "run 2"], ["stop"]], True, 1, {"waits": [1], "opens": [2]}),
+    ("pool 2 1", [["run 1"], ["run 2"], ["open"]], False, 1, {"waits": [1, 2]}),
+    ("pool 1 2", [["run 1", "run 2", "run 3", "run 4"], ["stop"], ["open"]], False, 1, {"waits": [1]}),
+]
+
+
+QUICK_DEP = [SMALL_DEP[0][:3] + (0,) + SMALL_DEP[0][4:], SMALL_DEP[1]]
+
+
+def small_case(entry):
+    obj, threads, spur, bound = entry[:4]
+    kinds = entry[4] if len(entry) > 4 else {}
+    return mc.MCase(obj, threads, [], spur, "systematic", waits=kinds.get("waits", ()), opens=kinds.get("opens", ())), bound
+
+
 class Prop:
     id = "C15"
     lean_module = "MuduoVerif.Props.C15"
     gen_engines = ["Monitor"]
     drivers = ["monitor"]
     technique = ("Lean 4 invariant proofs over a thread-indexed transition system of ThreadPool (workers, callers, stop split "
-                 "into flag store / broadcasts / joins, unlocked read of running_, task execution as its own step) whose "
+                 "into flag store / broadcasts / joins, unlocked read of running_, task execution as its own step, tasks that wait "
+                 "inside task() for a gate opened by a later task or a caller) whose "
                  "statement skeletons, guards and isFull are T1-extracted + schedule-controlled differential runs of the real "
-                 "ThreadPool + independent execution-count/order/deadlock oracle + exhaustive schedules under a preemption bound")
+                 "ThreadPool + independent execution-count/order/bound/no-lost-signal/deadlock oracle (monitor state snapshot at every "
+                 "release of the pool's mutex) + exhaustive schedules under a preemption bound; oracle-only search before any "
+                 "model comparison when an obligation or tie broke")
     level_text = ("Kernel-checked theorems for every number of workers (including none), every number of callers with any "
                   "programs of run()/stop(), every maxQueueSize and every interleaving (spurious wake-ups, every notify choice): "
                   "no task instance starts twice; taken ++ queued = accepted in order (FIFO take-up); queue length <= "
-                  "maxQueueSize; tasks start on pool threads, inline exactly when the pool has no threads; in every reachable "
-                  "state where no thread can step every accepted task has started or is still queued with the flag cleared; "
-                  "once stop() cleared the flag no reachable state leaves anybody parked (idle and busy workers, producers on a "
-                  "full queue, the stopper in join); after stop() returned on a pool with threads no step starts or enqueues a "
+                  "maxQueueSize; tasks start on pool threads, inline exactly when the pool has no threads; while the pool runs no "
+                  "wake-up is lost (a worker asleep unnotified => queued tasks <= notified workers on their way; same for "
+                  "producers and free places); in every reachable state where no thread can step every accepted task has "
+                  "started or is still queued with the flag cleared or with EVERY worker inside a task that waits for the closed "
+                  "gate (tasks may rely on later tasks: a free worker takes them up); once stop() cleared the flag no reachable "
+                  "state leaves anybody parked (idle and busy workers, producers on a full queue, the stopper in join) except "
+                  "workers inside a waiting task while the gate is closed and the stop() joining them; after stop() returned on a pool with threads no step starts or enqueues a "
                   "task.  Skeletons/guards are re-extracted from /repo on every run and tied by decide-lemmas; the model is tied "
                   "to the real class by identical-schedule runs")
     level_note = ("Trusted: Lean kernel (axioms propext, Classical.choice, Quot.sound only), vlib/extract.py + vlib/gen/monitor.py, "
                   "the hand-written parts of Model/TPool.lean as far as the differential runs exercise them, pthread "
                   "mutex/condition/join semantics as modelled, std::deque/std::function, harness/sched/detsched.h.")
     rule = ("pools with 0..3 threads, maxQueueSize 0..2, 1..3 callers with 0..4 run() each, a stop() inside a caller's program "
-            "(55%), as a thread of its own (35%) or absent (10%); 35% of the cases offer spurious wake-ups; random schedules "
+            "(55%), as a thread of its own (35%) or absent (10%); 35% of the cases offer spurious wake-ups; a quarter of the "
+            "pools with threads have dependent tasks (1..2 task ids wait inside task() for the gate; a later task and/or a "
+            "caller's `open` opens it); random schedules "
             "of 0..60 decisions plus, for the small configurations listed in the plug-in, every schedule within the "
             "preemption bound (among them bounded queues of size >= 2 with three or four producers and no stop(), so that "
-            "several producers are parked on notFull_ at once); a program on which model and implementation differ is "
+            "several producers are parked on notFull_ at once; a worker held inside a task + full queue + producers asleep in "
+            "run() + stop(); bursts of run() onto 2..3 idle workers whose first task waits for a later one); when an obligation "
+            "or tie broke all listed configurations and 2500 random programs run under the oracle alone first; a program on which model and implementation differ is "
             "explored again (with and without its stop()) under the oracle alone; a run is non-trivial when the scheduler "
             "had at least one real decision or the run ended "
             "all-blocked; distinct = distinct observable traces")
@@ -100,7 +158,8 @@ class Prop:
     ]
     assumptions = [
         "start() is called once before any run(); stop() is called at most once (a second stop() would join joined threads)",
-        "tasks terminate and do not call back into the pool; the thread-init callback is empty",
+        "tasks do not call back into the pool; a task terminates by itself or waits for the gate (then the theorems say exactly "
+        "who may be left parked); the thread-init callback is empty",
         "running_ is read atomically (C08 covers the race; /repo 483a7d4 made it std::atomic)",
     ]
     partial_theorems = []
@@ -123,6 +182,18 @@ class Prop:
                     print("  oracle: %s" % (mc.oracle_c15(c, blk) or "ok"))
             r.judge(exe, cases)
             return
+        if ctx.search_mode:
+            # an obligation or tie no longer checks: the model (it interprets skeletons that are not the declared ones
+            # any more) is no reference, and two disagreements with it would end the run.  Look for a concrete failing
+            # input under the oracle alone first: corpus, every listed configuration, random programs.
+            exe = ctx.exe("monitor_drv", "dbg")
+            r.searching = True
+            try:
+                self.search(ctx, r, exe)
+            finally:
+                r.searching = False
+            if ctx.stop():
+                return
         for fl in flavours:
             exe = ctx.exe("monitor_drv", fl)
             cases = mc.corpus_cases("C15")
@@ -130,34 +201,50 @@ class Prop:
             ctx.count("corpus_cases", len(cases))
             if ctx.stop():
                 return
-            heavy = ctx.search_mode or not ctx.quick()
+            heavy = not ctx.quick()
             if fl == "dbg":
-                total, complete = 0, []
-                limit = 12000 if heavy else 2500
-                plan = (SMALL_BP + SMALL) if heavy else (SMALL[:3] + SMALL_BP[:1])
-                for obj, threads, spur, bound in plan:
-                    c = mc.MCase(obj, threads, [], spur, "systematic")
-                    n, done = r.explore(exe, c, bound, limit)
-                    total += n
-                    complete.append({"object": obj, "threads": threads, "spurious": spur, "preemption_bound": bound,
-                                     "schedules": n, "complete": done})
-                    if ctx.stop():
-                        return
-                ctx.extra["systematic"] = complete
-                ctx.count("systematic_runs", total)
+                plan = (SMALL_DEP + SMALL_BP + SMALL) if heavy else (SMALL[:3] + SMALL_BP[:1] + QUICK_DEP)
+                if not self.systematic(ctx, r, exe, plan, 12000 if heavy else 2500):
+                    return
             ncases = (4000 if fl == "dbg" else 600) if heavy else 600
-            batch = []
-            for i in range(ncases):
-                batch.append(gen_case(ctx.rng, 6 if heavy else 3))
-                if len(batch) >= 150:
-                    r.judge(exe, batch)
-                    batch = []
-                    if ctx.stop():
-                        return
-            if batch:
-                r.judge(exe, batch)
-            if ctx.stop():
+            if not self.random_cases(ctx, r, exe, ncases, 6 if heavy else 3):
                 return
+
+    def systematic(self, ctx, r, exe, plan, limit):
+        total, complete = 0, ctx.extra.get("systematic", [])
+        for entry in plan:
+            c, bound = small_case(entry)
+            n, done = r.explore(exe, c, bound, limit)
+            total += n
+            complete.append({"object": c.obj, "threads": c.threads, "waits": c.waits, "opens": c.opens, "spurious": c.spurious,
+                             "preemption_bound": bound, "schedules": n, "complete": done, "oracle_only": r.searching})
+            if ctx.stop():
+                return False
+        ctx.extra["systematic"] = complete
+        ctx.count("systematic_runs", total)
+        return True
+
+    def random_cases(self, ctx, r, exe, ncases, nsched):
+        batch = []
+        for i in range(ncases):
+            batch.append(gen_case(ctx.rng, nsched))
+            if len(batch) >= 150:
+                r.judge(exe, batch)
+                batch = []
+                if ctx.stop():
+                    return False
+        if batch:
+            r.judge(exe, batch)
+        return not ctx.stop()
+
+    def search(self, ctx, r, exe):
+        ctx.count("oracle_only_searches")
+        r.judge(exe, mc.corpus_cases("C15"))
+        if ctx.stop():
+            return
+        if not self.systematic(ctx, r, exe, SMALL_DEP + SMALL_BP + SMALL, 12000):
+            return
+        self.random_cases(ctx, r, exe, 2500, 6)
 
 
 PROP = Prop()
